@@ -36,6 +36,8 @@ def gen_multi(c, n_sessions, n_ops):
             choices.append("destroy")
         if rng.random() < 0.03:
             choices.append("ids")
+        if alive and rng.random() < 0.012:
+            choices.append("cleanup_all")
         ch = rng.choice(choices) if choices else "new"
         if ch == "new":
             events.append(("new", created, sids[created]))
@@ -54,6 +56,14 @@ def gen_multi(c, n_sessions, n_ops):
             dead_probe[k] = 3
         elif ch == "ids":
             events.append(("ids",))
+        elif ch == "cleanup_all" and alive:
+            # bulk destruction (Service::CleanupAllSessions); the most recently used session is probed first
+            events.append(("cleanup_all",))
+            last_used = next((e[1] for e in reversed(events) if e[0] == "op"), None)
+            for k in sorted(alive, key=lambda x: x != last_used):
+                pos[k] = len(scripts[k])
+                dead_probe[k] = 3
+            alive.clear()
         # calls on a destroyed id, before any new session could re-use the address
         for k in list(dead_probe):
             if dead_probe[k] > 0 and rng.random() < 0.5:
@@ -62,6 +72,36 @@ def gen_multi(c, n_sessions, n_ops):
     for k in sorted(alive):
         events.append(("destroy", k))
     return events
+
+
+PUNCT = [ord(x) for x in "\"'.,<>/;:[]\\!?$"]
+
+
+def gen_stock_ops(rng, n):
+    """keys for the stock-like schema: pinyin letters, punctuation (paired quotes!), confirmation, ascii toggles"""
+    ops = []
+    for _ in range(n):
+        r = rng.random()
+        if r < 0.40:
+            ops.append("key %d 0" % ord(rng.choice("nihaomzgxa")))
+        elif r < 0.65:
+            ops.append("key %d 0" % rng.choice(PUNCT))
+        elif r < 0.80:
+            ops.append("key %d 0" % rng.choice([sc.XK["space"], sc.XK["Return"], sc.XK["BackSpace"], sc.XK["Escape"], sc.XK["Down"], sc.XK["Next"]]))
+        elif r < 0.86:
+            ops.append("option %s %d" % (rng.choice(["ascii_mode", "full_shape", "ascii_punct", "zh_simp"]), rng.randrange(2)))
+        elif r < 0.93:
+            ops.append("read_commit")
+        else:
+            ops.append(rng.choice(["commit", "clear", "select_page 1", "page +"]))
+    return ops
+
+
+def _write(c, tag, text):
+    p = os.path.join(c.work, tag + ".script")
+    with open(p, "w") as f:
+        f.write(text)
+    return p
 
 
 def to_script(rows, events):
@@ -82,6 +122,9 @@ def to_script(rows, events):
         elif e[0] == "destroy":
             lines.append("destroy %d" % e[1])
             index.append((None, "destroy %d" % e[1]))   # prints the view of `cur`, not part of a transcript
+        elif e[0] == "cleanup_all":
+            lines.append("cleanup_all")
+            index.append((None, "cleanup_all"))
         else:
             lines.append("ids")
             index.append((None, "ids"))
@@ -101,7 +144,13 @@ def solo_events(events, k):
     ev = []
     for j in range(k):
         ev += [("new", j, "vs_script"), ("destroy", j)]
-    return ev + [e for e in events if e[0] in ("new", "op", "destroy") and e[1] == k]
+    out = []
+    for e in events:
+        if e[0] in ("new", "op", "destroy") and e[1] == k:
+            out.append(e)
+        elif e[0] == "cleanup_all":
+            out.append(e)
+    return ev + out
 
 
 def run(c):
@@ -143,6 +192,8 @@ def run(c):
         for e in events:
             if e[0] == "destroy":
                 dead.add(e[1])
+            elif e[0] == "cleanup_all":
+                dead |= set(range(64))
             elif e[0] == "op" and e[1] in dead:
                 st["dead_calls"] += 1
         for k in sorted(ti):
@@ -172,12 +223,56 @@ def run(c):
         for (k, op), l in zip(index, impl):
             if op.startswith("destroy "):
                 dead.add(int(op.split()[1]))
+            elif op == "cleanup_all":
+                dead |= set(range(64))
             elif k is not None and op == "new":
                 dead.clear()
             elif k in dead and "nocontext" not in l:
                 c.report("C16:dead-id:%s" % sc.op_kind(op), "a call on a destroyed session id was not refused", dict(case, op=op, line=l))
         if len(st["samples"]) < 2:
             st["samples"].append({"events": [list(e) for e in events[:25]], "first_lines": impl[:3]})
+    # ---- stock components (punctuator, ascii_composer, recognizer, key_binder, script/table translators without
+    # learning): no model, transcripts solo vs interleaved vs replayed only
+    from checks import c01_common as c1
+    fws = c1.make_full_workspace(os.path.join(c.work, "fws"), user_dict=False)
+    st["stock_groups"] = 0
+    for g in range(max(2, groups // 3)):
+        n_s = 3
+        scripts = [gen_stock_ops(c.rng, n_ops) for _ in range(n_s)]
+        events = [("new", k, "vs_full") for k in range(n_s)]
+        pos = [0] * n_s
+        while any(pos[k] < len(scripts[k]) for k in range(n_s)):
+            k = c.rng.choice([k for k in range(n_s) if pos[k] < len(scripts[k])])
+            events.append(("op", k, scripts[k][pos[k]]))
+            pos[k] += 1
+        script, index = to_script([], events)
+        rc, out = sc.run_impl(exe, fws, _write(c, "fs%d" % g, script))
+        impl = [l for l in out.splitlines() if l.startswith("ret=") or l.startswith("ids ")]
+        rc2, out2 = sc.run_impl(exe, fws, _write(c, "fs%d" % g, script))
+        impl2 = [l for l in out2.splitlines() if l.startswith("ret=") or l.startswith("ids ")]
+        st["stock_groups"] += 1
+        st["events"] += len(index)
+        case = {"kind": "impl-violation", "schema": "vs_full", "table": [], "events": events}
+        if rc or rc2:
+            c.report("C16:crash", "multi-session script crashes", dict(case, log=(out if rc else out2)[-2000:]))
+            continue
+        if impl != impl2:
+            c.report("C16:replay:stock", "replaying the same calls in a new process gives a different observation", case)
+        ti = transcripts(index, impl)
+        for k in sorted(ti):
+            sscript, sindex = to_script([], solo_events(events, k))
+            sscript = sscript.replace("schema vs_script", "schema vs_full")
+            rc3, out3 = sc.run_impl(exe, fws, _write(c, "fso%d_%d" % (g, k), sscript))
+            simpl = [l for l in out3.splitlines() if l.startswith("ret=") or l.startswith("ids ")]
+            ts = transcripts(sindex, simpl).get(k, [])
+            st["sessions"] += 1
+            if [x[1] for x in ts] != [x[1] for x in ti[k]]:
+                d = next((i for i, (a, b) in enumerate(zip(ts, ti[k])) if a[1] != b[1]), min(len(ts), len(ti[k])))
+                # shrink: keep only the two sessions involved, then drop events while the difference persists
+                c.report("C16:isolation:%s" % sc.op_kind(ti[k][d][0] if d < len(ti[k]) else "?"),
+                         "a session on the stock-component schema observes something different when other sessions are interleaved",
+                         dict(case, session=k, op=ti[k][d][0] if d < len(ti[k]) else None,
+                              interleaved=ti[k][d][1] if d < len(ti[k]) else None, solo=ts[d][1] if d < len(ts) else None))
     if not audit["ok"] and not c.violations:
         c.report("C16:proof", "proof obligation no longer checks: %s" % "; ".join("%s: %s" % f for f in audit["failures"])[:600],
                  {"kind": "proof", "broken_theorems": audit["failures"], "lean_log": audit["log"][-3000:]}, no_input=True)
